@@ -264,6 +264,15 @@ def setup_temps(it, cfg):
     if lay in ("flat", "mixed", "flat_unreadable"):
         sensor(flat[0], "a", "acpitz", unreadable=(lay == "flat_unreadable"))
         globs[g_flat] = [flat[0] + "_input", flat[0] + "_max"]
+    elif lay in ("flat_badmax", "flat_badcrit"):
+        # one threshold file holds text that is not a number (some drivers print "N/A" or nothing): that threshold is unknown,
+        # the other one is still reported
+        sensor(flat[0], "a", "acpitz")
+        cr = it.fresh("a_crit", "Int")
+        vals["a_crit"] = cr
+        files[flat[0] + "_crit"] = ("int", cr)
+        files[flat[0] + ("_max" if lay == "flat_badmax" else "_crit")] = ("text", b"N/A")
+        globs[g_flat] = [flat[0] + "_input", flat[0] + "_max", flat[0] + "_crit"]
     else:
         globs[g_flat] = []
     if lay in ("nested", "mixed"):
@@ -292,8 +301,13 @@ def setup_temps(it, cfg):
 
 REGISTRY.add(Contract(
     "C19", LINUX_PY, "sensors_temperatures", setup=setup_temps, env=ENV,
-    configs=[{"layout": l} for l in ("flat", "nested", "mixed", "flat_unreadable", "thermal", "none")],
+    configs=[{"layout": l} for l in ("flat", "nested", "mixed", "flat_unreadable", "flat_badmax", "flat_badcrit", "thermal",
+                                     "none")],
     ensures=[
+        "implies(lay == 'flat_badmax', len(result['acpitz']) == 1 and result['acpitz'][0][1] * 1000 == a "
+        "and result['acpitz'][0][2] is None and result['acpitz'][0][3] * 1000 == a_crit)",
+        "implies(lay == 'flat_badcrit', len(result['acpitz']) == 1 and result['acpitz'][0][1] * 1000 == a "
+        "and result['acpitz'][0][2] * 1000 == a_max and result['acpitz'][0][3] is None)",
         "implies(lay == 'none', result == {})",
         "implies(lay == 'flat_unreadable', result == {})",                     # an unreadable sensor is skipped, the call succeeds
         "implies(lay in ('flat', 'mixed'), len(result['acpitz']) == 1 and result['acpitz'][0][1] * 1000 == a "
